@@ -283,9 +283,10 @@ def run(ctx):
     setup = find_setup(repo, INF, 'FactoredInference')
     from ..normalise import normalised
     setup = normalised(repo, setup)
-    from ._generic import scan_pop
+    from ._generic import scan_pop, buffered_accumulation
     scan_pop(ctx, setup)
     lip = repo.nfunc(INF, 'FactoredInference._lipschitz')
+    buffered_accumulation(ctx, lip, 'lipschitz-form')
     loss = repo.nfunc(INF, 'FactoredInference._marginal_loss')
     fix = repo.nfunc(INF, 'FactoredInference.fix_measurements')
     est = repo.nfunc(INF, 'FactoredInference.estimate')
@@ -332,12 +333,17 @@ def find_search(fi):
         proj = names[3]
         # (a) for cl in SEQ: if set(proj) <= set(cl): ACTION; break
         for inner in ast.walk(outer):
-            if isinstance(inner, ast.For) and inner is not outer and isinstance(inner.target, ast.Name):
+            # `for i, cl in enumerate(SEQ)`: the same search, with the position of the clique in SEQ at hand
+            tgt, seq_, ivar = inner.target if isinstance(inner, ast.For) else None, inner.iter if isinstance(inner, ast.For) else None, None
+            if isinstance(inner, ast.For) and isinstance(tgt, ast.Tuple) and len(tgt.elts) == 2 and all(isinstance(e_, ast.Name) for e_ in tgt.elts) \
+                    and isinstance(seq_, ast.Call) and U(seq_.func) == 'enumerate' and len(seq_.args) == 1 and not seq_.keywords:
+                ivar, tgt, seq_ = tgt.elts[0].id, tgt.elts[1], seq_.args[0]
+            if isinstance(inner, ast.For) and inner is not outer and isinstance(tgt, ast.Name):
                 ifs = [s for s in inner.body if isinstance(s, ast.If)]
-                if len(ifs) == 1 and len(inner.body) == 1 and is_subset(ifs[0].test, proj, inner.target.id) is not None and \
+                if len(ifs) == 1 and len(inner.body) == 1 and is_subset(ifs[0].test, proj, tgt.id) is not None and \
                         any(proj in names_in(n) for n in ast.walk(ifs[0].test)):
-                    return dict(outer=outer, inner=inner, proj=proj, cl=inner.target.id, seq=inner.iter, kind='loop',
-                                body=ifs[0].body, test=ifs[0], names=names)
+                    return dict(outer=outer, inner=inner, proj=proj, cl=tgt.id, seq=seq_, kind='loop',
+                                body=ifs[0].body, test=ifs[0], names=names, index_var=ivar)
         # (b) cl = next((c for c in SEQ if set(proj) <= set(c)), None)
         for s in ast.walk(outer):
             if isinstance(s, ast.Assign) and len(s.targets) == 1 and isinstance(s.targets[0], ast.Name) and \
@@ -1088,12 +1094,16 @@ def check_lipschitz(ctx, fi, s2):
     ev = EigEval({noise: sym(noise)}, atoms, hook=hook)
     got = ev.ev(value)
     want = sym('lambda_max') * sym('size(%s)' % cl) / sym('size(%s)' % proj) / (sym(noise) * sym(noise))
-    ctx.ob('lipschitz-form', fi, acc, got.eq(want) and isinstance(acc.op, ast.Add) and U(acc.target.slice) == cl,
+    ctx.ob('lipschitz-form', fi, acc, got.eq(want) and isinstance(acc.op, ast.Add) and U(acc.target.slice) in (cl, s2.get('index_var') or cl),
            'per-measurement term: expected %r added to the bucket of `%s`, source %r' % (want, cl, got))
     rets = [r for r in fi.body if isinstance(r, ast.Return)]
     inits = [s for s in fi.body if isinstance(s, ast.Assign) and isinstance(s.value, ast.DictComp)]
     table = U(acc.target.value)
+    by_position = s2.get('index_var') is not None and U(acc.target.slice) == s2.get('index_var')
     ok = bool(rets) and U(rets[-1].value).replace(' ', '') == 'max(%s.values())' % table
+    if by_position:
+        # buckets in an array, one per position of the searched clique sequence
+        ok = bool(rets) and U(rets[-1].value).replace(' ', '') in ('%s.max()' % table, 'max(%s)' % table, 'np.max(%s)' % table, 'float(%s.max())' % table)
     if not ok and rets and isinstance(rets[-1].value, ast.Name):
         # running maximum: L = 0 before the loop, `L = max(L, table[cl])` right after every update of a bucket, L returned.  The terms are
         # non-negative (lambda_max of Q^T Q, sizes, a squared noise scale), so a bucket only grows and the running maximum of the bucket just
@@ -1109,6 +1119,11 @@ def check_lipschitz(ctx, fi, s2):
             and len(upd) == 1 and upd[0] is nxt and isinstance(nxt, ast.Assign) and U(nxt.value).replace(' ', '') in forms
     ctx.ob('lipschitz-form', fi, rets[-1] if rets else fi.node, ok, 'the bound is the maximum over cliques of the per-clique sums')
     ok = bool(inits) and U(inits[0].value.value) in ('0.0', '0') and U(inits[0].value.generators[0].iter) == 'self.model.cliques'
+    if not ok and by_position:
+        zinit = [s_ for s_ in fi.body if isinstance(s_, ast.Assign) and len(s_.targets) == 1 and U(s_.targets[0]) == table
+                 and U(s_.value).replace(' ', '') in ('np.zeros(len(%s))' % U(s2['seq']).replace(' ', ''),)]
+        ok = len(zinit) == 1
+        inits = zinit or inits
     if not ok:
         zero_default = [s_ for s_ in fi.body if isinstance(s_, ast.Assign) and len(s_.targets) == 1 and U(s_.targets[0]) == table
                         and U(s_.value).replace(' ', '') in ('defaultdict(float)', 'collections.defaultdict(float)', 'defaultdict(int)',
